@@ -21,8 +21,8 @@ TECHNIQUE = (
 RULE = (
     "reader case = (0-60 rows, 1-8 columns of kind int/float/bool/safe-string, reader kind tsv/parquet(row group)/"
     "dataframe/renamed/joined(2-3 children of mixed kinds)/computed, chunk size 1..n+1, requested column subset+order "
-    "or all); non-trivial: >=2 chunks with a short last chunk. Writer history = initialize, appends of 0-7 rows as "
-    "frame/dict(s)/record, finalize, read back (text/Parquet x buffer size 0,2..9 x buffer kind); non-trivial: >=2 "
+    "or all; an in-memory frame may carry a filtered / sliced / reversed index); non-trivial: >=2 chunks with a short last chunk. Writer history = initialize, appends of 0-7 rows as "
+    "frame/dict(s)/record, finalize, read back through the writer's associated reader (text with separator tab , ; | / Parquet x buffer size 0,2..9 x buffer kind); non-trivial: >=2 "
     "appends of which one crosses a buffer boundary while rows are pending. Distinct = distinct canonical JSON."
 )
 ASSUMPTIONS = [
@@ -84,6 +84,8 @@ def _reader_case(draw, tier):
         "columns": sub,
         "rename": draw(st.lists(st.integers(0, ncol - 1), unique=True, max_size=ncol)),
         "rename_kind": draw(st.sampled_from(["suffix", "suffix", "swap", "chain"])),
+        # an in-memory frame handed to DataFrameReader need not carry the default index (filtered / sliced / re-ordered frame)
+        "df_index": draw(st.sampled_from([None, None, "filtered", "sliced", "reversed"])),
     }
 
 
@@ -183,6 +185,11 @@ def _check_reader(case):
     with scratch_dir() as tmp:
         rk = case["reader"]
         text_cols = set()
+        labels = list(range(n))
+        if rk == "dataframe" and case.get("df_index"):
+            labels = {"filtered": [2 * i + (i % 3) for i in range(n)], "sliced": [i + 10 for i in range(n)],
+                      "reversed": list(range(n - 1, -1, -1))}[case["df_index"]]
+            df.index = pd.Index(labels, dtype=np.int64)
         if rk in ("tsv", "parquet", "dataframe"):
             reader, src = _make_reader(rk, df, tmp / "t", case["row_group"])
             if src == "text":
@@ -237,7 +244,7 @@ def _check_reader(case):
             raise whole_err or chunk_err
         require(list(whole.columns) == want_cols, "column-order", f"whole read: columns {list(whole.columns)} != requested {want_cols}")
         require(len(whole) == n, "row-count", f"whole read: {len(whole)} rows for {n}")
-        require(list(whole.index) == list(range(n)), "index", "whole read: index is not 0..n-1")
+        require(list(whole.index) == labels, "index", "whole read: index is not 0..n-1 (the frame's own labels for an in-memory frame)")
         for c in want_cols:
             _cmp_col(whole[c].tolist(), model[c], kinds[c], c not in text_cols, f"whole[{c}]")
         # ---- chunked ----
@@ -250,7 +257,7 @@ def _check_reader(case):
         pos = 0
         for k, ch in enumerate(chunks):
             require(list(ch.columns) == want_cols, "column-order", f"chunk {k}: columns {list(ch.columns)} != requested {want_cols}")
-            require(list(ch.index) == list(range(pos, pos + len(ch))), "index",
+            require(list(ch.index) == labels[pos:pos + len(ch)], "index",
                     f"chunk {k}: index {list(ch.index)[:3]}.. does not continue at {pos}")
             pos += len(ch)
         if n > 0:
@@ -268,6 +275,8 @@ def _check_reader(case):
         for c in want_cols:
             _cmp_col(again[c].tolist(), whole[c].tolist(), kinds[c], True, f"reread[{c}]")
     classes = [rk]
+    if rk == "dataframe" and case.get("df_index"):
+        classes.append("frame-with-own-index")
     nchunks = len(exp_sizes)
     if columns is not None:
         classes.append("column-subset")
@@ -297,8 +306,9 @@ class WriterExec:
                     "mixed": np.dtype("float64")}
         ctypes = [pa_types[k] for k in self.kinds] if init["fmt"] == "parquet" else [np_types[k] for k in self.kinds]
         self.buffer_type = {"frame": td.TableType.DataFrame, "dicts": td.TableType.Dicts, "records": td.TableType.Records}[init["buffer_kind"]]
+        extra_kw = {"sep": init["sep"]} if (init["fmt"] != "parquet" and init.get("sep", "\t") != "\t") else {}
         self.writer = td.TabularDataWriter.from_suffix(self.path, self.names, buffer_size=init["buffer_size"],
-                                                       buffer_type=self.buffer_type, column_types=ctypes)
+                                                       buffer_type=self.buffer_type, column_types=ctypes, **extra_kw)
         self.buffered = init["buffer_size"] > 1
         self.model = []
         self.pending = 0
@@ -369,7 +379,8 @@ def run_history(ops):
                 done = True
         if not done:
             ex.finalize_and_check()
-        return {"nontrivial": ex.appends >= 2 and ex.crossed, "classes": ["writer-" + ops[0]["fmt"], "buffer-" + (ops[0]["buffer_kind"] if ex.buffered else "none")],
+        return {"nontrivial": ex.appends >= 2 and ex.crossed, "classes": ["writer-" + ops[0]["fmt"], "buffer-" + (ops[0]["buffer_kind"] if ex.buffered else "none")]
+                + (["writer-custom-separator"] if (ops[0]["fmt"] != "parquet" and ops[0].get("sep", "\t") != "\t") else []),
                 "counters": {"rows_written": len(ex.model)}}
 
 
@@ -416,12 +427,13 @@ def extra(tier, seed, shard, nshards, stats):
 
         @initialize(fmt=st.sampled_from(["tsv", "parquet"]), buffer_size=st.sampled_from([0, 0, 2, 3, 4, 5, 9]),
                     buffer_kind=st.sampled_from(["frame", "dicts", "records"]),
-                    kinds=st.lists(st.sampled_from(WRITER_KINDS), min_size=1, max_size=4))
-        def init(self, fmt, buffer_size, buffer_kind, kinds):
+                    kinds=st.lists(st.sampled_from(WRITER_KINDS), min_size=1, max_size=4),
+                    sep=st.sampled_from(["\t", "\t", ",", ";", "|"]))
+        def init(self, fmt, buffer_size, buffer_kind, kinds, sep):
             counter["n"] += 1
             d = tmp_root / f"m{counter['n']}"
             d.mkdir()
-            init = {"fmt": fmt, "buffer_size": buffer_size, "buffer_kind": buffer_kind, "kinds": kinds}
+            init = {"fmt": fmt, "buffer_size": buffer_size, "buffer_kind": buffer_kind, "kinds": kinds, "sep": sep}
             self.ops = [init]
             self._step(lambda: setattr(self, "ex", WriterExec(d, init)))
 
